@@ -25,6 +25,8 @@ def _worker(job):
             base = o.name.split('/', 1)[1]
             if o.kind == 'post':
                 label = base.split('/')[0]; props = c.props.get(label, props_all)
+            elif o.kind == 'raise_msg':
+                label = 'error_message_nonempty'; props = c.props.get('error_message_nonempty', props_all)
             elif o.kind == 'effect':
                 label = 'effects_only_if'; props = c.props.get('effects_only_if', props_all)
             elif o.kind == 'loop':
